@@ -42,6 +42,10 @@ CONSTANTS
   FixDel = FALSE
   FixInit = FALSE
   FixLate = FALSE
+  CloseCheckOutside = FALSE
+  StopDeletes = FALSE
+  Stalls = FALSE
+  Linger = FALSE
   PreAcked = TRUE
   Bursts = FALSE
   Sync = FALSE
